@@ -36,6 +36,8 @@ structure Cfg where
   auto     : Bool
   graceful : Bool
   makefail : Option Nat
+  /-- the caller keeps the completed serving future alive instead of dropping it -/
+  hold     : Bool := false
 deriving Repr, DecidableEq
 
 structure St where
@@ -81,10 +83,13 @@ def gracefulConn (c : Client) : Client :=
   else if c.inHandler || c.halfHead then { c with graceful := true }
   else closeServerSide c                                         -- idle keep-alive connection
 
-/-- The serving future has ended. With `with_graceful_shutdown` dropping it drops the watch receiver,
-    which every connection driver sees as the shutdown signal; plain `Serving` leaves them alone. -/
+/-- The serving future has ended. On the shutdown signal `GracefulShutdown::poll` closes the watch
+    channel explicitly, which every connection driver sees as "shut down gracefully". When the future
+    ends with an error nothing is sent; the channel closes only when the future itself is dropped –
+    which an `await` by value does at once, and a caller that keeps the completed future alive does not. -/
 def endServer (s : St) (r : Srv) : St :=
-  { s with srv := r, clients := if s.cfg.graceful then s.clients.map gracefulConn else s.clients }
+  { s with srv := r,
+           clients := if s.cfg.graceful && (r == .ok || !s.cfg.hold) then s.clients.map gracefulConn else s.clients }
 
 def modClient (s : St) (i : Nat) (f : Client → Client) : St :=
   { s with clients := s.clients.mapIdx fun j c => if j = i then f c else c }
@@ -99,7 +104,8 @@ def stepBasic (s : St) : Op → St
       -- accepted; `make_service` is asked for a service
       let s := { s with made := s.made + 1 }
       if s.cfg.makefail == some (s.made - 1) then
-        endServer (modClient s i fun c => { c with st := .opened, eof := true }) .errMake
+        -- the accepted stream lives in the serving future's state: it is closed when that future is dropped
+        endServer (modClient s i fun c => { c with st := .opened, eof := !s.cfg.hold }) .errMake
       else modClient s i fun c => { c with st := .opened, srvOpen := true, sniffing := s.cfg.auto }
   | .connx _ => s            -- a connection request whose client has gone away is skipped
   | .send i k =>
